@@ -277,7 +277,7 @@ func (w *Worker) run(s *State) {
 			}
 			continue
 		}
-		if t.panicking {
+		if t.panicking && (t.unwindAt < 0 || len(t.frames)-1 <= t.unwindAt) {
 			s.unwindStep(w, t)
 			continue
 		}
